@@ -24,7 +24,9 @@ def plans(prop, tier):
              prof(3, nops=n + 300, pool=400, maxlen=2, alpha=8, mode="mix", pput=65, prem=10, pget=25, pscan=0, piscan=0, pmem=0, pprobe=0, dumpevery=0, psweep=25),
              prof(5, nops=1100, pool=700, maxlen=6, alpha=8, pput=70, prem=8, pget=20, pscan=0, piscan=0, pmem=0, pprobe=0, dumpevery=0, psweep=12),
              prof(6, nops=n + 400, pool=160, maxlen=3, alpha=8, mode="deep", pput=65, prem=12, pget=23, pscan=0, piscan=0, pmem=0, pprobe=0, dumpevery=0, psweep=15),
-             prof(4, nops=n, pool=25, maxlen=9, alpha=2, pput=40, prem=40, pget=20, pscan=0, piscan=0, pmem=0, pprobe=0, dumpevery=0, uniq=50)]
+             prof(4, nops=n, pool=25, maxlen=9, alpha=2, pput=40, prem=40, pget=20, pscan=0, piscan=0, pmem=0, pprobe=0, dumpevery=0, uniq=50),
+             # split sweep: see C08; here for the statuses / values of put, get, remove around every split position
+             prof(7, nops=40, pool=20, maxlen=2, alpha=3, pput=45, prem=30, pget=25, pscan=0, piscan=0, pmem=0, pprobe=0, dumpevery=0, splitsweep=1)]
         M = ["MC_Tree_struct7.cfg", "MC_Tree_struct9S.cfg"] if q else ["MC_Tree_struct7.cfg", "MC_Tree_struct8L.cfg", "MC_Tree_struct9S.cfg"]
     elif prop == "C03":
         on = ["C03"]
@@ -57,7 +59,9 @@ def plans(prop, tier):
              prof(35, nops=m + 300, pool=300, maxlen=3, alpha=4, pput=85, prem=10, pget=0, pscan=0, piscan=0, pmem=5, pprobe=0, dumpevery=7, psweep=25),
              prof(36, nops=1100, pool=700, maxlen=6, alpha=8, pput=85, prem=8, pget=0, pscan=0, piscan=0, pmem=2, pprobe=0, dumpevery=25, psweep=12),
              prof(37, nops=m + 400, pool=160, maxlen=3, alpha=8, mode="deep", pput=75, prem=10, pget=0, pscan=0, piscan=0, pmem=3, pprobe=0, dumpevery=9, psweep=20),
-             prof(34, nops=m, pool=30, maxlen=2, alpha=3, pput=50, prem=50, pget=0, pscan=0, piscan=0, pmem=0, pprobe=0, dumpevery=3)]
+             prof(34, nops=m, pool=30, maxlen=2, alpha=3, pput=50, prem=50, pget=0, pscan=0, piscan=0, pmem=0, pprobe=0, dumpevery=3),
+             # split sweep: every rank of a full border that mixes short keys, exactly-8-byte keys and links of the same slice receives the 16th key
+             prof(38, nops=40, pool=20, maxlen=2, alpha=3, pput=50, prem=40, pget=0, pscan=0, piscan=0, pmem=10, pprobe=0, dumpevery=4, splitsweep=1)]
         M = ["MC_Tree_struct7.cfg"] if q else ["MC_Tree_struct7.cfg", "MC_Tree_struct8L.cfg", "MC_Tree_struct9S.cfg"]
     elif prop == "C10":
         on = ["C10"]
